@@ -275,8 +275,8 @@ func (eng *Engine) targets() []*ssa.Function {
 		if eng.contractFor(fn) == nil && len(findLoops(fn)) == 0 && !eng.isAPI(fn) {
 			continue
 		}
-		if fc := eng.contractFor(fn); fc != nil && fc.Inline {
-			continue
+		if fc := eng.contractFor(fn); fc != nil && fc.Inline && len(fc.Ensures) == 0 {
+			continue // inlined everywhere and nothing to check stand-alone
 		}
 		if fn.TypeParams().Len() > 0 && len(fn.TypeArgs()) == 0 {
 			continue // generic origin: its instances are verified
